@@ -6,4 +6,5 @@ CONSTANTS
   FixD3 = FALSE
   FixD10 = TRUE
   FixD12 = TRUE
+  FixD17 = TRUE
 INVARIANT C13_NoStaleHandlers
